@@ -103,6 +103,17 @@ class use_loops:
         return False
 
 
+def find_site(qual, contains):
+    """the loop of function `qual` whose iterable / test contains the given source text: robust against loops being added
+    or removed before it (the ordinal in the site key changes, the contract stays attached to the same loop)"""
+    modname, _, path = qual.partition(":")
+    shadow.module(modname)
+    hits = [s for s, d in shadow.SITES.items() if d["module"] == modname and d["qualname"] == path and contains in d.get("head", "")]
+    if len(hits) != 1:
+        raise Unsupported(f"{qual}: {len(hits)} loops match '{contains}' (the loop the contract belongs to was changed)")
+    return hits[0]
+
+
 def loops_of(qual):
     """all loop sites of a function in the current source: used to detect added loops"""
     modname, _, path = qual.partition(":")
